@@ -8,18 +8,18 @@ use soroban_sdk::crypto::ideal_hash;
 use soroban_sdk::model::{self, any};
 use soroban_sdk::{Address, Bytes, BytesN, Env, IntoVal, Symbol, Val};
 
-fn svc() -> Address {
+pub fn svc() -> Address {
     Address(5)
 }
 // ---- TokenSpec: one token contract's view of the service's balance, plus a call log
-static mut T_CALLS: u32 = 0;
-static mut T_TOKEN: u32 = 0;
-static mut T_FROM: u32 = 0;
-static mut T_TO: u32 = 0;
-static mut T_AMOUNT: i128 = 0;
-static mut SVC_BAL: i128 = 0;
-static mut OTHER_BAL: i128 = 0;
-fn spec_transfer(env: &Env, contract: &Address, from: &Address, to: &Address, amount: &i128) {
+pub static mut T_CALLS: u32 = 0;
+pub static mut T_TOKEN: u32 = 0;
+pub static mut T_FROM: u32 = 0;
+pub static mut T_TO: u32 = 0;
+pub static mut T_AMOUNT: i128 = 0;
+pub static mut SVC_BAL: i128 = 0;
+pub static mut OTHER_BAL: i128 = 0;
+pub fn spec_transfer(env: &Env, contract: &Address, from: &Address, to: &Address, amount: &i128) {
     unsafe {
         if *from != env.current_contract_address() {
             from.require_auth();
@@ -48,11 +48,11 @@ fn spec_transfer(env: &Env, contract: &Address, from: &Address, to: &Address, am
     }
 }
 // the rest of the standard token interface, so that a service that moves funds some other way is judged, not left inconclusive
-static mut ALLOW: i128 = 0; // the one allowance of the scenario: whatever (from, spender) pair is asked about
-fn spec_allowance(_env: &Env, _contract: &Address, _from: &Address, _spender: &Address) -> i128 {
+pub static mut ALLOW: i128 = 0; // the one allowance of the scenario: whatever (from, spender) pair is asked about
+pub fn spec_allowance(_env: &Env, _contract: &Address, _from: &Address, _spender: &Address) -> i128 {
     unsafe { ALLOW }
 }
-fn spec_approve(env: &Env, _contract: &Address, from: &Address, _spender: &Address, amount: &i128, _expiration_ledger: &u32) {
+pub fn spec_approve(env: &Env, _contract: &Address, from: &Address, _spender: &Address, amount: &i128, _expiration_ledger: &u32) {
     unsafe {
         if *from != env.current_contract_address() {
             from.require_auth();
@@ -63,7 +63,7 @@ fn spec_approve(env: &Env, _contract: &Address, from: &Address, _spender: &Addre
         ALLOW = *amount;
     }
 }
-fn spec_transfer_from(env: &Env, contract: &Address, spender: &Address, from: &Address, to: &Address, amount: &i128) {
+pub fn spec_transfer_from(env: &Env, contract: &Address, spender: &Address, from: &Address, to: &Address, amount: &i128) {
     unsafe {
         // a delegated transfer is authorised by the SPENDER and covered by the allowance; `from` is not asked
         if *spender != env.current_contract_address() {
@@ -93,7 +93,7 @@ fn spec_transfer_from(env: &Env, contract: &Address, spender: &Address, from: &A
         T_AMOUNT = *amount;
     }
 }
-fn spec_burn(env: &Env, _contract: &Address, from: &Address, amount: &i128) {
+pub fn spec_burn(env: &Env, _contract: &Address, from: &Address, amount: &i128) {
     unsafe {
         if *from != env.current_contract_address() {
             from.require_auth();
@@ -109,7 +109,7 @@ fn spec_burn(env: &Env, _contract: &Address, from: &Address, amount: &i128) {
         T_TOKEN = 0; // not a transfer: `one_transfer` is false
     }
 }
-fn spec_balance(_env: &Env, contract: &Address, id: &Address) -> i128 {
+pub fn spec_balance(_env: &Env, contract: &Address, id: &Address) -> i128 {
     unsafe {
         if *id == svc() {
             SVC_BAL
@@ -118,7 +118,7 @@ fn spec_balance(_env: &Env, contract: &Address, id: &Address) -> i128 {
         }
     }
 }
-fn arm() -> i128 {
+pub fn arm() -> i128 {
     unsafe {
         T_CALLS = 0;
         SVC_BAL = kani::any();
@@ -130,15 +130,15 @@ fn arm() -> i128 {
         SVC_BAL
     }
 }
-fn one_transfer(token: &Address, from: &Address, to: &Address, amount: i128) -> bool {
+pub fn one_transfer(token: &Address, from: &Address, to: &Address, amount: i128) -> bool {
     unsafe { T_CALLS == 1 && T_TOKEN == token.0 && T_FROM == from.0 && T_TO == to.0 && T_AMOUNT == amount }
 }
-fn any_token() -> Token {
+pub fn any_token() -> Token {
     let id: u32 = kani::any();
     kani::assume(id == 6 || id == 7);
     Token { address: Address(id), amount: kani::any() }
 }
-fn setup() -> (Env, Address) {
+pub fn setup() -> (Env, Address) {
     let env = Env::default();
     any::auths();
     let collector = any::address(4);
